@@ -242,23 +242,43 @@ def observe_cp(case: Dict[str, Any], prop: str, whatif: bool = False, breakdown:
         except Exception as ex:
             obs["err"] = hta.exc_str(ex)
             return obs
+        obs["again"] = {"ok": False, "edges": [], "p": {"path": [], "pedges": [], "pevents": []}, "bd": [], "summary": []}
         if ok and breakdown:
-            try:
-                elist = list(cp.critical_path_edges_set)
-                bd = cp.get_critical_path_breakdown()
+            def read_breakdown(g):
+                elist = list(g.critical_path_edges_set)
+                bd = g.get_critical_path_breakdown()
                 assert len(bd) == len(elist)
+                rows = []
                 for e, t in zip(elist, bd[["event_idx", "duration", "type", "bound_by"]].itertuples(index=False)):
                     ev = t[0]
-                    obs["bd"].append({"u": int(e.begin), "v": int(e.end), "ev": -9 if ev != ev or ev is None else int(ev), "dur": _tk(t[1]),
-                                      "type": TYPES[str(t[2])], "bound": str(t[3])})
-                    for x in obs["edges"]:
-                        pass
+                    rows.append({"u": int(e.begin), "v": int(e.end), "ev": -9 if ev != ev or ev is None else int(ev), "dur": _tk(t[1]),
+                                 "type": TYPES[str(t[2])], "bound": str(t[3])})
                 import contextlib, io
                 with contextlib.redirect_stdout(io.StringIO()):
-                    summ = cp.summary()
-                obs["summary"] = [{"bound": str(k), "pct": hta.scaled(v, 1000)} for k, v in summ.items()]
+                    summ = g.summary()
+                return rows, [{"bound": str(k), "pct": hta.scaled(v, 1000)} for k, v in summ.items()]
+            try:
+                obs["bd"], obs["summary"] = read_breakdown(cp)
             except Exception as ex:
                 obs["err"] = "breakdown: " + hta.exc_str(ex)
+            # call history on ONE graph object: breakdown read, then a what-if edit of the live graph (weight attribute and edge object replaced
+            # together), critical_path() again, breakdown and summary read again -- they must describe the recomputed path
+            rr2 = random.Random(case["iseed"] + 2)
+            if not obs["err"] and rr2.random() < 0.6:
+                try:
+                    import dataclasses
+                    on_path = {(int(e.begin), int(e.end)) for e in cp.critical_path_edges_set}
+                    for u, v in list(cp.edges):
+                        if rr2.random() < (0.5 if (int(u), int(v)) in on_path else 0.2):
+                            w = cp.edges[u, v]["weight"]
+                            nw = rr2.choice([0, w * 2, w + 3, max(0, w - 1), w // 2])
+                            cp.edges[u, v]["weight"] = nw
+                            cp.edges[u, v]["object"] = dataclasses.replace(cp.edges[u, v]["object"], weight=nw)
+                    if cp.critical_path():
+                        bd2, summ2 = read_breakdown(cp)
+                        obs["again"] = {"ok": True, "edges": project_graph(cp)["edges"], "p": project_path(cp), "bd": bd2, "summary": summ2}
+                except Exception as ex:
+                    obs["err"] = "breakdown after recomputation: " + hta.exc_str(ex)
         if ok and whatif:
             rr = random.Random(case["iseed"] + 1)
             for trial in range(2):
